@@ -182,6 +182,8 @@ class ParseMCNPCell:
         if int(material_id) == 0:
             # LIKE n BUT MAT=0: a void cell has no density
             density = None
+        # the material number names the composition: 01 and 1 are the same
+        material_id = str(int(material_id))
         fillid = self.to_fillid(kws, lat_opt)
         kws['trcl'] = [] if not kws['trcl'] else [kws['trcl']]
 
